@@ -588,3 +588,184 @@ def judge_ord0(o):
     if not o.get("intact", True):
         return "an operand no longer holds what it was built from after the call"
     return None
+
+
+# ---------------------------------------------------------------------------------------------
+# wave 5: histories on ONE sparse object — operator, in-place element assignments (which may grow the shape, add, overwrite or
+# delete entries), operator again on the SAME object — compared with the same request on a tensor rebuilt by the constructor.
+# Whatever an operator left behind on the object (anything derived from the shape / the stored rows at the time of the first
+# call) must not survive the mutation.
+# ---------------------------------------------------------------------------------------------
+def sim_assign(shape, subs, vals, assigns):
+    """pure-python effect of the single-element assignments S[sub] = val in order: an existing entry is overwritten in place, a
+    zero deletes it (order of the others kept), a new nonzero is appended, the shape grows to contain every assigned subscript
+    (also when a zero is assigned past the bounds)"""
+    shape, subs, vals = list(shape), [list(s) for s in subs], list(vals)
+    for sub, val in assigns:
+        sub = list(sub)
+        if sub in subs:
+            k = subs.index(sub)
+            if val != 0:
+                vals[k] = val
+            else:
+                del subs[k], vals[k]
+        elif val != 0:
+            subs.append(sub)
+            vals.append(val)
+        shape = [max(d, x + 1) for d, x in zip(shape, sub)]
+    return shape, subs, vals
+
+
+def sim_assign_dense(shape, data, assigns):
+    """pure-python effect of T[sub] = val (single elements, in order) on a dense tensor given by its F-order list: the shape grows
+    to contain the subscript (new cells are 0), then the cell is overwritten"""
+    shape = list(shape)
+    cells = dict(zip(map(tuple, tgen.all_subs(shape)), data)) if shape else {}
+    for sub, val in assigns:
+        shape = [max(d, x + 1) for d, x in zip(shape, sub)]
+        cells[tuple(sub)] = val
+    return shape, [cells.get(tuple(s), 0) for s in tgen.all_subs(shape)]
+
+
+def _mk_rhs_of(ttb, np, a):
+    if "rk" not in a:
+        return None
+    if a["rk"] == "scalar":
+        return a["c"]
+    if a["rk"] == "dense":
+        return mk_dense_layout(ttb, np, a["shape"], a["bd"], None)
+    return mk_sp_layout(ttb, np, a["shape"], a["bsubs"], a["bvals"], None)
+
+
+def _rebuilt(ttb, np, X):
+    """the tensor X holds now, built in one go by the constructor from copies of its lists"""
+    if X.nnz == 0:
+        return ttb.sptensor(shape=tuple(int(d) for d in X.shape))
+    return ttb.sptensor(np.array(X.subs, dtype=int, copy=True), np.array(X.vals, copy=True), tuple(int(d) for d in X.shape), copy=True)
+
+
+def _same_obs(p, q):
+    keys = ("kind", "shape", "subs", "vals", "data", "nnz")
+    return all(p.get(k) == q.get(k) for k in keys)
+
+
+def run_hist(op, a):
+    """hist:<op0>,<op1>.  X = the object with a history (who = "A": the left operand of the second request, "B": its sparse
+    right operand).  step 1: X op0 R0 on the initial tensor; then the assignments on X; step 2: the second request with X;
+    step 3: the second request with the tensor rebuilt by the constructor.  All three raw results are observed."""
+    import logging
+    import numpy as np
+    import pyttb as ttb
+    logging.disable(logging.WARNING)
+    try:
+        op0, op1 = op[5:].split(",")
+        h = a["hist"]
+        a0 = h["a0"]
+        nd = len(a["shape"])
+        if h["who"] == "T":
+            return _run_hist_dense(ttb, np, op0, op1, a)
+        X = mk_sp_layout(ttb, np, a0["shape"], a0["subs"], a0["vals"], None)
+        R0 = _mk_rhs_of(ttb, np, a0)
+        out = {"kind": "steps", "steps": []}
+        with np.errstate(all="ignore"):
+            out["steps"].append(observe(ttb, np, apply_op(ttb, np, op0, X, R0)))
+            for sub, val in h["assign"]:
+                X[tuple(int(x) for x in sub)] = float(val)
+            xs, xv = raw_sparse(np, X, nd)
+            out["state"] = {"shape": [int(d) for d in X.shape], "subs": xs, "vals": xv}   # the object after its history, raw
+            if h["who"] == "A":
+                S, R = X, _mk_rhs_of(ttb, np, a)
+                Sf, Rf = _rebuilt(ttb, np, X), _mk_rhs_of(ttb, np, a)
+            else:
+                S, R = mk_sp_layout(ttb, np, a["shape"], a["subs"], a["vals"], None), X
+                Sf, Rf = mk_sp_layout(ttb, np, a["shape"], a["subs"], a["vals"], None), _rebuilt(ttb, np, X)
+            out["steps"].append(observe(ttb, np, apply_op(ttb, np, op1, S, R)))
+            out["steps"].append(observe(ttb, np, apply_op(ttb, np, op1, Sf, Rf)))
+        out["same_as_rebuilt"] = bool(_same_obs(out["steps"][1], out["steps"][2]))
+        sa, va = raw_sparse(np, S, nd)
+        intact = sa == [list(x) for x in a["subs"]] and va == list(a["vals"]) and tuple(int(d) for d in S.shape) == tuple(a["shape"])
+        if a.get("rk") == "sparse":
+            sb, vb = raw_sparse(np, R, nd)
+            intact = (intact and sb == [list(x) for x in a["bsubs"]] and vb == list(a["bvals"])
+                      and tuple(int(d) for d in R.shape) == tuple(a["shape"]))
+        elif a.get("rk") == "dense":
+            intact = intact and [tgen.exact(x) for x in np.ravel(R.data, order="F")] == list(a["bd"])
+        out["intact"] = bool(intact)
+        return out
+    except Exception as ex:
+        return {"exc": type(ex).__name__, "msg": str(ex)[:160]}
+    finally:
+        logging.disable(logging.NOTSET)
+
+
+def _run_hist_dense(ttb, np, op0, op1, a):
+    """who = "T": the object with a history is the DENSE right operand: S0 op0 T on the initial tensors, element assignments on T
+    (growing it: pyttb installs a new zero array), then A op1 T with the same object and with a tensor rebuilt from a copy of its data"""
+    h = a["hist"]
+    a0 = h["a0"]
+    nd = len(a["shape"])
+    S0 = mk_sp_layout(ttb, np, a0["shape"], a0["subs"], a0["vals"], None)
+    T = mk_dense_layout(ttb, np, a0["shape"], a0["bd"], None)
+    out = {"kind": "steps", "steps": []}
+    with np.errstate(all="ignore"):
+        out["steps"].append(observe(ttb, np, apply_op(ttb, np, op0, S0, T)))
+        for sub, val in h["assign"]:
+            T[tuple(int(x) for x in sub)] = float(val)
+        out["state"] = {"shape": [int(d) for d in T.shape], "data": [tgen.exact(x) for x in np.ravel(T.data, order="F")]}
+        S = mk_sp_layout(ttb, np, a["shape"], a["subs"], a["vals"], None)
+        Sf = mk_sp_layout(ttb, np, a["shape"], a["subs"], a["vals"], None)
+        Tf = ttb.tensor(np.array(T.data, copy=True, order="F"), tuple(int(d) for d in T.shape), copy=True)
+        out["steps"].append(observe(ttb, np, apply_op(ttb, np, op1, S, T)))
+        out["steps"].append(observe(ttb, np, apply_op(ttb, np, op1, Sf, Tf)))
+    out["same_as_rebuilt"] = bool(_same_obs(out["steps"][1], out["steps"][2]))
+    sa, va = raw_sparse(np, S, nd)
+    out["intact"] = bool(sa == [list(x) for x in a["subs"]] and va == list(a["vals"]) and [int(d) for d in T.shape] == list(a["shape"])
+                         and [tgen.exact(x) for x in np.ravel(T.data, order="F")] == list(a["bd"])
+                         and out["state"]["shape"] == list(a["shape"]) and out["state"]["data"] == list(a["bd"]))
+    return out
+
+
+def judge_hist(o, op, a):
+    if "exc" in o:
+        return f"admissible history raised {o['exc']}: {o.get('msg')}"
+    op0, op1 = op[5:].split(",")
+    a0 = a["hist"]["a0"]
+    p = judge(o["steps"][0], a0["shape"], expected_dense(op0, a0))
+    if p:
+        return f"first request ({op0}) on the initial tensor: " + p
+    if not o.get("intact", True):
+        return ("after the in-place assignments the operands do not hold the expected lists (assigned object) / the lists they were built "
+                "from (other operand)")
+    want = expected_dense(op1, a)
+    for k, what in ((1, "on the object that was used by an operator and then changed in place"), (2, "on the same tensor rebuilt by the constructor")):
+        p = judge(o["steps"][k], a["shape"], want)
+        if p:
+            return f"second request ({op1}) {what}: " + p
+    if not o.get("same_as_rebuilt", True):
+        return f"second request ({op1}): the object with a history and the rebuilt tensor give different raw results"
+    return None
+
+
+# ---------------------------------------------------------------------------------------------
+# wave 5: sparse / dense as the code is (csubs = self.subs; cvals = self.vals / other[csubs]) — brute-force expectation used by the
+# oracle of the list-for-list tie `divmodel` with a dense operand (open finding C03-N5: nothing stored where both operands are 0)
+# ---------------------------------------------------------------------------------------------
+def judge_div_dense_asis(o, a):
+    if "exc" in o:
+        return f"admissible request raised {o['exc']}: {o.get('msg')}"
+    st = o["steps"][0]
+    if st.get("kind") != "sparse":
+        return f"result of kind {st.get('kind')}"
+    p = wf_problems(st, a["shape"], zeros_ok=True)
+    if p:
+        return "ill-formed sparse result: " + p
+    if st["subs"] != [list(s) for s in a["subs"]]:
+        return f"stored rows {st['subs']} are not the rows of the sparse operand in their stored order"
+    T = dict(zip(map(tuple, tgen.all_subs(a["shape"])), a["bd"]))
+    for s, x, g in zip(a["subs"], a["vals"], st["vals"]):
+        want = pydiv(x, T[tuple(s)])
+        if not same_val(g, want):
+            return f"entry {s} is {g}, the dense-operand branch of the division is expected to store {want}"
+    if not o.get("intact", True):
+        return "an operand no longer holds the values it was built from after the call"
+    return None
